@@ -63,6 +63,8 @@ func (o c05Operand) wire() string {
 			return "b:" + o.rat.Num().String()
 		case "R":
 			return "r:" + o.rat.Num().String()
+		case "O":
+			return "o:" + o.rat.Num().String()
 		}
 		return "q:" + o.rat.Num().String()
 	}
@@ -97,6 +99,8 @@ func (o c05Operand) rep() string {
 			}
 		case "R":
 			return "irat" // a ratio object with denominator 1, e.g. (coerce 5 'ratio)
+		case "O":
+			return "oct" // an integer 0..255 held in an octet, (coerce 5 'octet)
 		}
 	}
 	return c05Rep(o.rat)
@@ -136,6 +140,8 @@ func (o c05Operand) object() slip.Object {
 			return (*slip.Bignum)(new(big.Int).Set(o.rat.Num()))
 		case "R":
 			return (*slip.Ratio)(new(big.Rat).Set(o.rat))
+		case "O":
+			return slip.Octet(byte(o.rat.Num().Int64()))
 		}
 		if o.rat.Num().IsInt64() {
 			return slip.Fixnum(o.rat.Num().Int64())
@@ -395,6 +401,10 @@ var c05Ops = []c05Op{
 	{"evenp", 1, 1, "int", 1, true}, {"oddp", 1, 1, "int", 1, true}, {"logbitp", 2, 2, "bitp", 1, true},
 	{"signum", 1, 1, "rat", 1, false}, {"numerator", 1, 1, "rat", 1, false}, {"denominator", 1, 1, "rat", 1, false},
 	{"rational", 1, 1, "real", 1, false},
+	// the remaining bitwise operators
+	{"logeqv", 0, -1, "int", 1, false}, {"lognand", 2, 2, "int", 1, false}, {"lognor", 2, 2, "int", 1, false},
+	{"logandc1", 2, 2, "int", 1, false}, {"logandc2", 2, 2, "int", 1, false}, {"logorc1", 2, 2, "int", 1, false},
+	{"logorc2", 2, 2, "int", 1, false}, {"logtest", 2, 2, "int", 1, true},
 	// (incf place [delta]) / (decf place [delta]): the place is a variable holding the first operand
 	{"incf", 1, 2, "place", 1, false}, {"decf", 1, 2, "place", 1, false},
 	// slip.LessThan(a, b), the Go ordering helper of the root package (coerce.go), called directly
@@ -442,6 +452,8 @@ func (cs c05Case) lisp() string {
 				parts = append(parts, "(coerce "+a.rat.RatString()+" 'bignum)")
 			case a.form == "R" && a.rat.IsInt():
 				parts = append(parts, "(coerce "+a.rat.RatString()+" 'ratio)")
+			case a.form == "O" && a.rat.IsInt():
+				parts = append(parts, "(coerce "+a.rat.RatString()+" 'octet)")
 			default:
 				parts = append(parts, a.rat.RatString())
 			}
@@ -454,7 +466,7 @@ func (cs c05Case) lisp() string {
 // operand mutation flag.
 func c05Impl(cs c05Case) (reply string, mutated bool, fault bool, msg string) {
 	scope := slip.NewScope()
-	names := []string{"a", "b", "c", "d"}
+	names := []string{"a", "b", "c", "d", "a5", "a6", "a7"}
 	objs := make([]slip.Object, len(cs.args))
 	before := make([]string, len(cs.args))
 	src := "(multiple-value-list (" + cs.op.name
@@ -641,6 +653,7 @@ type c05Avoid struct {
 	negNoDemo bool            // (- a) of a bignum whose negation fits a fixnum
 	floorNeg  bool            // (floor fixnum negative-fixnum)
 	exptNeg   bool            // (expt rational negative-integer)
+	logeqvBig bool            // (logeqv …) with an argument held in a bignum object
 }
 
 func c05AvoidRules(f *lib.Findings) c05Avoid {
@@ -659,6 +672,7 @@ func c05AvoidRules(f *lib.Findings) c05Avoid {
 	av.negNoDemo = false // repaired (repo-patches/C05/0023)
 	av.subNoDemo = f.Listed("C05", "op=- in=big ") || f.Listed("C05", "op=- in=big,fix ")
 	av.floorNeg = f.Listed("C05", "op=floor in=fix")
+	av.logeqvBig = f.Listed("C05", "op=logeqv in=")
 	for _, fd := range f.Findings {
 		if fd.Property == "C05" && strings.HasPrefix(fd.Signature, "op=expt ") && strings.Contains(fd.Signature, " q=e- ") {
 			av.exptNeg = true
@@ -717,6 +731,15 @@ func (av c05Avoid) listed(cs c05Case) bool {
 			}
 		}
 		return name == "-" && av.subNoDemo && accRep == "big" && !c05IsBigInt(acc)
+	case "logeqv":
+		if av.logeqvBig {
+			for _, a := range cs.args {
+				if a.form == "B" || c05Rep(a.rat) == "big" {
+					return true
+				}
+			}
+		}
+		return false
 	case "floor":
 		return av.floorNeg && len(cs.args) == 2 && c05Rep(cs.args[0].rat) == "fix" && c05Rep(cs.args[1].rat) == "fix" && cs.args[1].rat.Sign() < 0
 	case "expt":
@@ -746,12 +769,12 @@ func c05ParseRequest(req string) (c05Case, bool) {
 	for _, a := range w[2:] {
 		kind, v, _ := strings.Cut(a, ":")
 		switch kind {
-		case "q", "b", "r":
+		case "q", "b", "r", "o":
 			r, ok := new(big.Rat).SetString(v)
 			if !ok {
 				return cs, false
 			}
-			cs.args = append(cs.args, c05Operand{rat: r, kind: "q", form: map[string]string{"q": "", "b": "B", "r": "R"}[kind]})
+			cs.args = append(cs.args, c05Operand{rat: r, kind: "q", form: map[string]string{"q": "", "b": "B", "r": "R", "o": "O"}[kind]})
 		case "d":
 			var bits uint64
 			_, _ = fmt.Sscanf(v, "%x", &bits)
@@ -783,6 +806,9 @@ func c05Replay(c *lib.Ctx) {
 		return
 	}
 	req, _ := rec["request"].(string)
+	if strings.HasPrefix(req, "num hist ") && c05ReplayHistory(c, req) {
+		return
+	}
 	cs, ok := c05ParseRequest(req)
 	if !ok {
 		fmt.Println("replay file has no usable request:", rec["input"])
@@ -1086,6 +1112,11 @@ func runC05(c *lib.Ctx) {
 		// a ratio object n/1 is of type ratio in slip: the integer-only functions reject it (type-error),
 		// that is slip's type system and not a wrong result, so it is not offered to them
 		pool := nonCanon
+		if op.name == "logeqv" && avoid.logeqvBig {
+			// the bignum branch of logeqv is a listed finding (pinned); its single-cause cells are the
+			// grid singles and pairs above, a bignum OBJECT of fixnum range takes the same branch
+			continue
+		}
 		if op.domain == "int" || op.domain == "bitp" {
 			pool = nil
 			for _, a := range nonCanon {
@@ -1137,6 +1168,43 @@ func runC05(c *lib.Ctx) {
 			}
 		}
 	}
+	// --- single-cause sweep, octet cells: an octet ((coerce n 'octet), an element of an octets vector) is an
+	// integer of the language; the operators that accept one must treat it as the integer it is (no
+	// wrap-around at 8 bits). Operators that reject octets with a type-error are not offered any.
+	nOctetCells := 0
+	var octets []c05Operand
+	for _, v := range []string{"0", "1", "2", "3", "127", "128", "254", "255"} {
+		octets = append(octets, c05Int(v).asForm("O"))
+	}
+	octetPartners := []c05Operand{c05Int("0"), c05Int("1"), c05Int("-1"), c05Int("255"), c05Int("256"), c05Int("9223372036854775807"),
+		c05Int("18446744073709551616"), c05RatioS("1", "2"), c05RatioS("511", "2")}
+	for _, op := range c05Ops {
+		switch op.name {
+		case "1+", "1-", "plusp", "minusp", "zerop", "evenp", "oddp", "signum":
+			for _, a := range octets {
+				cases = append(cases, c05Case{op, []c05Operand{a}, true})
+				nOctetCells++
+			}
+		case "ash":
+			for _, a := range octets {
+				for _, k := range []string{"-9", "-8", "-1", "0", "1", "7", "8", "55", "56", "57", "64"} {
+					cases = append(cases, c05Case{op, []c05Operand{a, c05Int(k)}, true})
+					nOctetCells++
+				}
+			}
+		case "<", "<=", ">", ">=", "=", "/=":
+			for _, a := range octets {
+				for _, b := range append(append([]c05Operand{}, octets...), octetPartners...) {
+					cases = append(cases, c05Case{op, []c05Operand{a, b}, true}, c05Case{op, []c05Operand{b, a}, true})
+					nOctetCells += 2
+				}
+				for _, f := range []c05Operand{c05Double(255), c05Double(254.5), c05Single(128), c05Double(0), c05Double(-0.5)} {
+					cases = append(cases, c05Case{op, []c05Operand{a, f}, true}, c05Case{op, []c05Operand{f, a}, true})
+					nOctetCells += 2
+				}
+			}
+		}
+	}
 	nSweep := len(cases)
 
 	// --- composite, seed independent: all triples over a small pool for the n-ary operators
@@ -1171,10 +1239,148 @@ func runC05(c *lib.Ctx) {
 			}
 		}
 	}
+	// --- composite, seed independent: ALL triples over the boundary grid for every n-ary operator
+	// (the fold passes through every pair of representations: fixnum, bignum, ratio accumulators)
+	nGridTriples := 0
+	for _, op := range c05Ops {
+		if op.maxArg != -1 {
+			continue
+		}
+		for _, a := range grid {
+			for _, b := range grid {
+				for _, d := range grid {
+					cs := c05Case{op, []c05Operand{a, b, d}, false}
+					if avoid.listed(cs) {
+						avoided++
+						continue
+					}
+					cases = append(cases, cs)
+					nGridTriples++
+				}
+			}
+		}
+	}
 	nTriples := len(cases) - nSweep
 
 	// --- composite, seeded: integers up to 200 bits and ratios thereof
-	nRandom := c.Scale(30000, 2000000)
+	nRandom := c.Scale(60000, 3000000)
+	naryPool := append(append(append([]c05Operand{}, gridRatios...), widthInts...), ratioPool[:]...)
+	var naryOps []c05Op
+	for _, op := range c05Ops {
+		if op.maxArg == -1 {
+			naryOps = append(naryOps, op)
+		}
+	}
+	// n-ary calls of 3..5 operands over the boundary grid, the width classes and the ratio pools
+	naryCase := func() c05Case {
+		op := naryOps[c.Rng.Intn(len(naryOps))]
+		n := 3 + c.Rng.Intn(3)
+		var args []c05Operand
+		for j := 0; j < n; j++ {
+			var a c05Operand
+			switch {
+			case op.domain == "int":
+				if c.Rng.Bool() {
+					a = intPool[c.Rng.Intn(len(intPool))]
+				} else {
+					a = widthInts[c.Rng.Intn(len(widthInts))]
+				}
+			case op.isCmp() && c.Rng.Chance(15):
+				a = floats[c.Rng.Intn(len(floats))]
+			case c.Rng.Chance(70):
+				a = intPool[c.Rng.Intn(len(intPool))]
+			default:
+				a = naryPool[c.Rng.Intn(len(naryPool))]
+			}
+			if len(args) > 0 && c.Rng.Chance(12) {
+				a = args[c.Rng.Intn(len(args))] // a repeated operand (=, /=, min, max; x - x; x / x)
+			}
+			args = append(args, a)
+		}
+		return c05Case{op, args, false}
+	}
+	// structured folds: the operands are derived from a chosen sequence of INTERMEDIATE results, so
+	// that the running value of + - * / passes through chosen representations (an exact bignum
+	// quotient followed by a divisor that does not divide it, a sum that returns to the fixnum range,
+	// a product that becomes an integer again); gcd/lcm operands share a huge common factor
+	pick := func() *big.Rat {
+		switch c.Rng.Intn(4) {
+		case 0:
+			return intPool[c.Rng.Intn(len(intPool))].rat
+		case 1:
+			return widthInts[c.Rng.Intn(len(widthInts))].rat
+		case 2:
+			return new(big.Rat).SetInt(c.Rng.BigBits([]int{8, 33, 62, 63, 64, 65, 100, 200}[c.Rng.Intn(8)]))
+		}
+		if c.Rng.Bool() {
+			return ratioPool[c.Rng.Intn(len(ratioPool))].rat
+		}
+		return ratios[c.Rng.Intn(len(ratios))].rat
+	}
+	foldCase := func() c05Case {
+		names := []string{"+", "-", "*", "/", "gcd", "lcm"}
+		name := names[c.Rng.Intn(len(names))]
+		var op c05Op
+		for _, o := range c05Ops {
+			if o.name == name {
+				op = o
+			}
+		}
+		n := 3 + c.Rng.Intn(3)
+		var args []c05Operand
+		if name == "gcd" || name == "lcm" {
+			g := new(big.Int).Abs(pick().Num())
+			if g.Sign() == 0 || c.Rng.Chance(40) {
+				g = new(big.Int).Lsh(big.NewInt(int64(1+c.Rng.Intn(7))), uint(60+c.Rng.Intn(80)))
+			}
+			for j := 0; j < n; j++ {
+				v := new(big.Int).Mul(g, big.NewInt(int64(c.Rng.Intn(60)-8)))
+				if c.Rng.Chance(15) {
+					v = big.NewInt(int64(c.Rng.Intn(100) - 20))
+				}
+				args = append(args, c05Big(v))
+			}
+			return c05Case{op, args, false}
+		}
+		acc := new(big.Rat).Set(pick())
+		args = append(args, c05Operand{rat: new(big.Rat).Set(acc), kind: "q"})
+		for j := 1; j < n; j++ {
+			next := pick()
+			if c.Rng.Chance(35) {
+				// an exact multiple / divisor of the running value by a small number
+				k := new(big.Rat).SetInt64(int64(2 + c.Rng.Intn(9)))
+				if c.Rng.Bool() {
+					next = new(big.Rat).Mul(acc, k)
+				} else {
+					next = new(big.Rat).Quo(acc, k)
+				}
+			}
+			arg := new(big.Rat)
+			switch name {
+			case "+":
+				arg.Sub(next, acc)
+			case "-":
+				arg.Sub(acc, next)
+			case "*":
+				if acc.Sign() == 0 {
+					arg.Set(next)
+					next = new(big.Rat)
+				} else {
+					arg.Quo(next, acc)
+				}
+			case "/":
+				if next.Sign() == 0 || acc.Sign() == 0 {
+					arg.SetInt64(int64(1 + c.Rng.Intn(9)))
+					next = new(big.Rat).Quo(acc, arg)
+				} else {
+					arg.Quo(acc, next)
+				}
+			}
+			args = append(args, c05Operand{rat: arg, kind: "q"})
+			acc = next
+		}
+		return c05Case{op, args, false}
+	}
 	randOperand := func(dom string) c05Operand {
 		bits := []int{8, 31, 33, 62, 63, 64, 65, 100, 200}[c.Rng.Intn(9)]
 		n := c.Rng.BigBits(bits)
@@ -1220,6 +1426,12 @@ func runC05(c *lib.Ctx) {
 		return c05Big(n)
 	}
 	randCase := func() c05Case {
+		switch c.Rng.Intn(8) {
+		case 0, 1:
+			return naryCase()
+		case 2, 3:
+			return foldCase()
+		}
 		op := c05Ops[c.Rng.Intn(len(c05Ops))]
 		n := op.minArg
 		if n == 0 {
@@ -1393,6 +1605,14 @@ func runC05(c *lib.Ctx) {
 		runBatch(batch)
 	}
 	nRandom = nGenerated
+	nHist, nHistCalls, nHistAgree, nHistDet := c05RunHistories(c, avoid, intPool, gridRatios, floats)
+	total += nHist
+	agree += nHistAgree
+	c.Ev.Coverage["histories"] = nHist
+	c.Ev.Coverage["histories_seed_independent"] = nHistDet
+	c.Ev.Coverage["history_calls"] = nHistCalls
+	c.Ev.Coverage["grid_triple_cases"] = nGridTriples
+	c.Ev.Coverage["sweep_octet_cases"] = nOctetCells
 	c05Dump(c)
 	c.Ev.Coverage["traces_validated_against_impl"] = total
 	c.Ev.Coverage["agreements"] = agree
@@ -1404,5 +1624,5 @@ func runC05(c *lib.Ctx) {
 	c.Ev.Coverage["triple_cases"] = nTriples
 	c.Ev.Coverage["random_cases"] = nRandom
 	c.Ev.Coverage["composite_cases_avoided_listed_construct"] = avoided
-	c.Ev.Coverage["rule"] = "cases = (operator, operand tuple); sweep (exhaustive, seed independent, may be excused by findings/C05.json) = boundary grid in all pairs/singles per operator + float-coupled comparison cells + mixed-format float cells + width-class ratio cells + representation cells (integers held in a bignum object or in a ratio object n/1); composite (never excused, listed constructs avoided) = all triples over a small pool for the n-ary operators + random integers/ratios up to 200 bits, 8 % of the integers in a non-canonical representation; non-trivial = some operand is a ratio or has magnitude >= 2^31; distinct by request line"
+	c.Ev.Coverage["rule"] = "cases = (operator, operand tuple); sweep (exhaustive, seed independent, may be excused by findings/C05.json) = boundary grid in all pairs/singles per operator + float-coupled comparison cells + mixed-format float cells + width-class ratio cells + representation cells (integers held in a bignum object or in a ratio object n/1); composite (never excused, listed constructs avoided) = all triples over a small pool and over the boundary grid for the n-ary operators + n-ary calls of 3..5 operands over grid/width classes + structured folds (operands derived from chosen intermediate results; gcd/lcm with a huge common factor) + histories (3..8 calls in one scope, every operand and result kept in a variable, re-read after every later call and used again as operands; compared with the model's history runner SlipVerif.Num.run) + random integers/ratios up to 200 bits, 8 % of the integers in a non-canonical representation; non-trivial = some operand is a ratio or has magnitude >= 2^31; distinct by request line"
 }
